@@ -36,6 +36,10 @@ func main() {
 	if tier != "thorough" {
 		tier = "quick"
 	}
+	if hasArg("--free-race") {
+		runFreeRace(id, tier)
+		os.Exit(0)
+	}
 	c := NewCheck(id, tier, def.level)
 	def.fn(c)
 	if c.partial != "" {
